@@ -27,6 +27,14 @@ fn main() {
 
 fn real_main(args: &[String]) -> i32 {
     let Some(cmd) = args.first() else { return usage() };
+    if cmd != "build-step" {
+        // (a build step is itself the simulated process: nothing may run before its entropy is
+        // installed, and it does exactly one build, so first-use effects are the same every time)
+        let quiet_hook = std::panic::take_hook();
+        std::panic::set_hook(Box::new(|_| {}));
+        seams::warmup();
+        std::panic::set_hook(quiet_hook);
+    }
     match cmd.as_str() {
         // internal sub-commands (child processes)
         "r-worker" => return driver_r::worker_main(&args[1..]),
